@@ -50,6 +50,20 @@ def progs():
         ("bqm", "def prog(a: Qint[4], b: bool) -> Qint[4]:\n    return (a >> 1) ^ (4 if b else 0)\n"),
         ("bqm", "def prog(a: Qint[2], b: Qint[2]) -> Qint[2]:\n    return (a - 1) - b\n"),
     ]
+    # different n-ary operators over the same operands within one return bit / across return bits
+    ops = {"and": " and ", "or": " or ", "xor": " ^ "}
+    for n, args in ((3, "a: bool, b: bool, c: bool"), (4, "a: bool, b: bool, c: bool, d: bool")):
+        vs = ["a", "b", "c", "d"][:n]
+        for o1 in ops:
+            for o2 in ops:
+                if o1 == o2:
+                    continue
+                x, y = "(" + ops[o1].join(vs) + ")", "(" + ops[o2].join(vs) + ")"
+                extra.append(("bqm-sameops", "def prog(%s) -> bool:\n    return %s and not %s\n" % (args, x, y)))
+                extra.append(("bqm-sameops", "def prog(%s) -> bool:\n    return %s != %s\n" % (args, x, y)))
+                if n == 3:
+                    extra.append(("bqm-sameops", "def prog(%s, d: bool) -> bool:\n    return (d or %s) and not %s\n" % (args, x, y)))
+                    extra.append(("bqm-sameops", "def prog(%s) -> Tuple[bool, bool]:\n    return (%s, %s)\n" % (args, x, y)))
     return extra + P
 
 
@@ -79,7 +93,7 @@ def make_items(tier, seed):
         if not corpus.size_ok(src, 10, 70):
             continue
         sp = {"ob": "ground", "fam": fam, "src": src}
-        (core if (fam == "bqm" or i % 5 == 0) else rest).append(sp)
+        (core if (fam.startswith("bqm") or i % 5 == 0) else rest).append(sp)
     for src in DECODE_SIGS:
         core.append({"ob": "decode", "src": src})
     if tier == "thorough":
@@ -234,9 +248,32 @@ def check_item(spec):
     return st.into(res)
 
 
+class _SymRandom:
+    """environment stub: randomness returns an arbitrary value of its range (a fresh solver
+    variable), so that a decoder that consults it where the sample is explicit is refuted"""
+
+    @staticmethod
+    def randint(a, b):
+        c = symx._cur()
+        v = c.newvar(z3.IntSort(), "rnd")
+        c.extra.append(z3.And(v >= a, v <= b))
+        return symx.SxInt(v)
+
+
+class _FixedRandom:
+    def __init__(self, v):
+        self.v = v
+
+    def randint(self, a, b):
+        return min(max(self.v, a), b)
+
+
+NSAMPLES = 2
+
+
 def decode_item(spec, qf, st, res, finding):
-    """decode_samples on a symbolic sample: each argument is decoded to the value whose bits are the
-    sample's values of the argument's bit variables"""
+    """decode_samples on a set of two symbolic samples: each argument of each decoded sample is
+    the value whose bits are that sample's values of the argument's bit variables"""
     import importlib
 
     from .c05 import leaf_terms, mirror
@@ -245,11 +282,19 @@ def decode_item(spec, qf, st, res, finding):
     twb = importlib.import_module(symx.ALIAS + ".bqm")
     m = mirror(tw, qf)
     ins = circ.input_bits(qf)
-    bits = {b: z3.Int("s_" + b) for b in ins}
-    base = [z3.And(v >= 0, v <= 1) for v in bits.values()]
-    sample = {b: symx.SxInt(v) for b, v in bits.items()}
-    sset = [pyqubo_stub.DecodedSolution(sample, 0.0)]
-    paths, aborted = symx.explore(lambda: twb.decode_samples(m, sset), base=base, stats=st, maxpaths=400)
+    bitsl = [{b: z3.Int("s%d_%s" % (j, b)) for b in ins} for j in range(NSAMPLES)]
+    base = [z3.And(v >= 0, v <= 1) for bits in bitsl for v in bits.values()]
+
+    def run():
+        sset = [pyqubo_stub.DecodedSolution({b: symx.SxInt(v) for b, v in bits.items()}, float(j)) for j, bits in enumerate(bitsl)]
+        return twb.decode_samples(m, sset)
+
+    old_random = getattr(twb, "random", None)
+    twb.random = _SymRandom
+    try:
+        paths, aborted = symx.explore(run, base=base, stats=st, maxpaths=400)
+    finally:
+        twb.random = old_random
     if aborted or not paths:
         res.update(status="inconclusive", note="decode_samples: %d aborted paths" % aborted)
         return st.into(res)
@@ -260,7 +305,7 @@ def decode_item(spec, qf, st, res, finding):
         s.add(*base, *pc, *extra)
         if r[0] == "exc":
             if st.check(s) == "sat":
-                ok, what = replay_decode(qf, s.model(), bits)
+                ok, what = replay_decode(qf, s.model(), bitsl)
                 if not ok:
                     finding("decode-samples-raises", what)
                 else:
@@ -268,46 +313,47 @@ def decode_item(spec, qf, st, res, finding):
             s.pop()
             continue
         dec = r[1]
-        if len(dec) != 1:
-            finding("decode-samples-shape", "%d decoded samples for 1 sample" % len(dec))
+        if len(dec) != NSAMPLES:
+            finding("decode-samples-shape", "%d decoded samples for %d samples" % (len(dec), NSAMPLES))
             s.pop()
             continue
         bad = []
-        for a in m.args:
-            try:
-                lt = leaf_terms(dec[0].sample[a.name], a.ttype)
-            except Exception as e:
-                finding("decode-samples-shape", "argument %s decoded to %r (%s)" % (a.name, dec[0].sample.get(a.name), e))
-                lt = None
-                break
-            k = [0]
+        for j, bits in enumerate(bitsl):
+            for a in m.args:
+                try:
+                    lt = leaf_terms(dec[j].sample[a.name], a.ttype)
+                except Exception as e:
+                    finding("decode-samples-shape", "argument %s decoded to %r (%s)" % (a.name, dec[j].sample.get(a.name), e))
+                    lt = None
+                    break
+                k = [0]
 
-            def walk(t):
-                if t is bool:
-                    e = ("bool", bits[a.bitvec[k[0]]] == 1)
-                    k[0] += 1
-                    return [e]
-                if hasattr(t, "BIT_SIZE"):
-                    w = t.BIT_SIZE
-                    if t.__name__.startswith("Qfixed"):
-                        i_, f_ = t.BIT_SIZE_INTEGER, t.BIT_SIZE_FRACTIONAL
-                        e = ("fixed", z3.Sum([bits[a.bitvec[k[0] + j]] * 2 ** (f_ + j) for j in range(i_)] + [bits[a.bitvec[k[0] + i_ + j]] * 2 ** (f_ - 1 - j) for j in range(f_)]))
-                    else:
-                        e = ("int", z3.Sum([bits[a.bitvec[k[0] + j]] * 2 ** j for j in range(w)]))
-                    k[0] += w
-                    return [e]
-                out = []
-                for x in typing.get_args(t):
-                    out += walk(x)
-                return out
+                def walk(t):
+                    if t is bool:
+                        e = ("bool", bits[a.bitvec[k[0]]] == 1)
+                        k[0] += 1
+                        return [e]
+                    if hasattr(t, "BIT_SIZE"):
+                        w = t.BIT_SIZE
+                        if t.__name__.startswith("Qfixed"):
+                            i_, f_ = t.BIT_SIZE_INTEGER, t.BIT_SIZE_FRACTIONAL
+                            e = ("fixed", z3.Sum([bits[a.bitvec[k[0] + j2]] * 2 ** (f_ + j2) for j2 in range(i_)] + [bits[a.bitvec[k[0] + i_ + j2]] * 2 ** (f_ - 1 - j2) for j2 in range(f_)]))
+                        else:
+                            e = ("int", z3.Sum([bits[a.bitvec[k[0] + j2]] * 2 ** j2 for j2 in range(w)]))
+                        k[0] += w
+                        return [e]
+                    out = []
+                    for x in typing.get_args(t):
+                        out += walk(x)
+                    return out
 
-            exp = walk(a.ttype)
-            for (k1, x), (k2, y) in zip(lt, exp):
-                bad.append(z3.Xor(x, y) if k2 == "bool" else (x != y if k2 == "int" else x != z3.ToReal(y)))
+                exp = walk(a.ttype)
+                for (k1, x), (k2, y) in zip(lt, exp):
+                    bad.append(z3.Xor(x, y) if k2 == "bool" else (x != y if k2 == "int" else x != z3.ToReal(y)))
         if bad:
             v = st.check(s, z3.Or(*bad))
             if v == "sat":
-                ok, what = replay_decode(qf, s.model(), bits)
+                ok, what = replay_decode(qf, s.model(), bitsl)
                 if not ok:
                     finding("decode-samples-wrong", what)
                 else:
@@ -318,22 +364,33 @@ def decode_item(spec, qf, st, res, finding):
     return st.into(res)
 
 
-def replay_decode(qf, model, bits):
-    from qlasskit.bqm import decode_samples
+def replay_decode(qf, model, bitsl):
+    """concrete replay on the real function; its use of `random` (if any) is pinned to each end of
+    the range in turn - the decoder is wrong if some outcome of the randomness misdecodes"""
+    import qlasskit.bqm as B
 
     from .c05 import conc_val
     from ..algo import real_value_bits
 
-    sample = {b: model.eval(v, model_completion=True).as_long() for b, v in bits.items()}
+    samples = [{b: model.eval(v, model_completion=True).as_long() for b, v in bits.items()} for bits in bitsl]
+    real_random = B.random
     try:
-        dec = decode_samples(qf, [pyqubo_stub.DecodedSolution(sample, 0.0)])
-    except Exception as e:
-        return False, "sample %s: decode_samples raises %s: %s" % (sample, type(e).__name__, str(e)[:80])
-    for a in qf.args:
-        got = real_value_bits(conc_val(dec[0].sample[a.name]), a.ttype)
-        want = [bool(sample[b]) for b in a.bitvec]
-        if got != want:
-            return False, "sample %s: argument %s decoded to %r (encoding %s), the sample spells %s" % (sample, a.name, dec[0].sample[a.name], got, want)
+        for rv in (1, 0):
+            B.random = _FixedRandom(rv)
+            try:
+                dec = B.decode_samples(qf, [pyqubo_stub.DecodedSolution(dict(sm), float(j)) for j, sm in enumerate(samples)])
+            except Exception as e:
+                return False, "samples %s: decode_samples raises %s: %s" % (samples, type(e).__name__, str(e)[:80])
+            if len(dec) != len(samples):
+                return False, "samples %s: %d decoded samples" % (samples, len(dec))
+            for j, sm in enumerate(samples):
+                for a in qf.args:
+                    got = real_value_bits(conc_val(dec[j].sample[a.name]), a.ttype)
+                    want = [bool(sm[b]) for b in a.bitvec]
+                    if got != want:
+                        return False, "samples %s: argument %s of sample #%d decoded to %r (encoding %s), the sample spells %s" % (samples, a.name, j, dec[j].sample[a.name], got, want)
+    finally:
+        B.random = real_random
     return True, ""
 
 
